@@ -134,6 +134,11 @@ class SQ(Q):
     def astype(a, *_a, **_k):
         return a
 
+    def __getitem__(a, key):
+        if isinstance(key, tuple) and len(key) == 2 and isinstance(key[0], slice) and key[0] == slice(None) and key[1] is None:
+            return _ColumnBroadcast(a)            # v[:, None]
+        raise Unsupported(f"index {key!r} into a pointwise value")
+
     def __eq__(a, b):
         if isinstance(b, (int, float)) and b == 0:
             CTX.side.append("generic point: a value compared with 0.0 is non-zero")
@@ -249,8 +254,33 @@ class SymMatrix:
     def T(self):
         return _Transposed(self)
 
+    def _scale(self, other, invert: bool):
+        """A /= v[:, None] / A *= v[:, None]: every column scaled, row by row, by a pointwise vector (or a scalar)"""
+        if isinstance(other, _ColumnBroadcast):
+            other = other.v
+        if isinstance(other, (SymMatrix, SymCol, Vec)):
+            raise Unsupported("matrix scaled by another matrix / column object")
+        k = SQ.of(other)
+        for c in self.cols.values():
+            for h in list(c.v):
+                c.v[h] = (SQ.of(c.v[h]) / k) if invert else (SQ.of(c.v[h]) * k)
+        return self
+
+    def __itruediv__(self, other):
+        return self._scale(other, True)
+
+    def __imul__(self, other):
+        return self._scale(other, False)
+
     def dot(self, other):
         raise Unsupported("matrix product outside the modelled solver patterns")
+
+
+class _ColumnBroadcast:
+    """v[:, None] of a pointwise vector: one value per row, broadcast over the columns"""
+
+    def __init__(self, v):
+        self.v = v
 
 
 class _Transposed:
